@@ -223,7 +223,7 @@ def edge_item(e):
     c, s = node_cls_item(e.source)
     c2, d = node_cls_item(e.destination)
     assert c == c2
-    return f'{c};{s};{d};{e.get_edge_type().value};{impl.enc_meta(e.meta)}'
+    return f'{c};{s};{d};{impl.ety(e)};{impl.enc_meta(e.meta)}'
 
 
 def ans(f):
@@ -250,7 +250,7 @@ def abstract(g):
     edges = {}
     for e in g.edges:
         s, d = e.source.identifier, e.destination.identifier
-        edges[frozenset((s, d))] = (s, d, e.get_edge_type().value, impl.cj(e.meta))
+        edges[frozenset((s, d))] = (s, d, impl.ety(e), impl.cj(e.meta))
     return nodes, edges
 
 
@@ -284,7 +284,7 @@ def expect_edge(a, b, deep):
     """same node class, no self-loops"""
     pa = (a.source.identifier, a.destination.identifier)
     pb = (b.source.identifier, b.destination.identifier)
-    ta, tb = a.get_edge_type().value, b.get_edge_type().value
+    ta, tb = impl.ety(a), impl.ety(b)
     if ta != tb:
         return False
     if pa == pb:
